@@ -6,6 +6,7 @@ import ConfModel.Model.Base64
 import ConfModel.Model.RawMerge
 import ConfModel.Model.RawSeq
 import ConfModel.Spec.RawSeq
+import ConfModel.Model.RawRetry
 namespace ConfModel.Driver.C17
 open Lean ConfModel.Driver ConfModel.RawBody ConfModel.RawBodySpec
 
@@ -410,6 +411,42 @@ def handle : Handler := fun op inp impl =>
         if err != "" then s!"raw response with status {c} could not be read"
         else if !statusOk then s!"raw response prescribes status {c}, the wire carries {status} (informational: {info})"
         else "body is not the given body" }
+  | "rawretry" =>
+    let rows := parseOracle (field impl "oracle")
+    let compress := compressOf rows
+    let verb := str (field inp "verb")
+    let uri := str (field inp "uri")
+    let given := parseHdrs (field inp "headers")
+    let fault := str (field inp "fault")
+    let b := parseBody (field inp "body")
+    let mBody := (RawSeq.obsOf compress ⟨b, none⟩).out
+    let exercised := bool (field impl "exercised")
+    let attempts := arr (field impl "attempts")
+    let sub := field impl "sub"
+    -- the model: the substitute request RoundTrip makes, through the transport law
+    let env : ConfModel.RawRetry.Env :=
+      ⟨str (field inp "proto") == "h2c", ["GET", "HEAD", "OPTIONS", "TRACE"].contains verb,
+       given.any (fun h => canonS h.name == "Idempotency-Key" || canonS h.name == "X-Idempotency-Key")⟩
+    let orig : ConfModel.RawRetry.Orig := ⟨unhex (str (field inp "orig")), bool (field inp "origGetBody")⟩
+    let faults := if fault == "none" then 0 else 1
+    let mReq := ConfModel.RawRetry.roundTripReq mBody 0 orig
+    let mWire := ConfModel.RawRetry.wire env mReq faults
+    let bodies := attempts.map fun a => unhex (str (field a "body"))
+    -- the property: every request that reached the peer - any connection, any attempt - is the prescribed one
+    let oks := attempts.map fun a =>
+      let hdrs := parseHdrs (field a "headers")
+      str (field a "method") == verb && str (field a "target") == uri
+        && given.all (fun h => valuesOf hdrs (canonS h.name) == givenFor given (canonS h.name))
+        && RawSeqSpec.stepBytesHold compress ⟨b, none⟩ (unhex (str (field a "body")))
+    let holds := oks.all id
+    let agree := !exercised ||
+      (bodies == mWire && bool (field sub "getBody") == mReq.getBody.isSome && bool (field sub "bodyPipe")
+        && bool (field impl "err") == (faults > 0 && !ConfModel.RawRetry.canReplay env mReq))
+    { agree := agree, holds := holds, nontrivial := exercised && faults > 0,
+      cls := str (field inp "proto") ++ ":" ++ fault ++ (if exercised then "" else ":not-exercised"),
+      model := Json.mkObj [("attempts", toJson (mWire.map hex)), ("getBody", mReq.getBody.isSome)],
+      why := if holds then "" else
+        s!"request #{firstBad oks + 1} of those the peer received for the raw request is not the prescribed one (method, target, listed headers, body)" }
   | _ => bad ("C17: unknown op " ++ op)
 
 end ConfModel.Driver.C17
